@@ -8,6 +8,7 @@
  *        L<i>         launch thread i        J<i>  join (joinable) thread i
  *        JA           aws_thread_join_all_managed, then log the managed-thread count
  *        P            schedule point
+ *        I            aws_common_library_init() once more (dependent libraries do this; it is documented as idempotent)
  */
 #include "vh_core.h"
 
@@ -140,6 +141,10 @@ static void scenario(char **lines, int nlines) {
             aws_thread_clean_up(&T[j].thread);
         } else if (op[0] == 'P') {
             vs_point();
+        } else if (op[0] == 'I') {
+            aws_common_library_init(aws_default_allocator());
+            vh_begin("ReInit");
+            vh_end();
         }
     }
 }
